@@ -42,6 +42,7 @@ def run(ctx: Ctx):
     descriptor(ctx)
     raw_arrays(ctx)
     module_state(ctx)
+    memoisation(ctx)
     iterators(ctx)
     raw_argument(ctx)
     who_may_call(ctx)
@@ -290,3 +291,128 @@ def who_may_call(ctx: Ctx):
             if isinstance(n, ast.Attribute) and n.attr == "_is_numeric_measure" and isinstance(n.ctx, ast.Load):
                 readers.append(m.qual)
     ctx.ob("who-may-call.guard-reader", "cube.py::CubeSet._is_numeric_measure", sorted(set(readers)), "['cube.py::CubeSet._cubes']", sorted(set(readers)) == ["cube.py::CubeSet._cubes"], "the guard is evaluated (and cached) by the only site that inflates, so guard evaluation and insertion cannot be interleaved by another read")
+
+
+# --------------------------------------------------------------------------- no value shared through a process-wide cache
+_MEMO_DECORATORS = ("lru_cache", "cache", "memoize", "memoized", "cached")  # NOT lazyproperty / cached_property: those cache per object
+_MEMO_CONTROL = """
+import functools
+_SEEN = {}
+
+@functools.lru_cache(maxsize=64)
+def _parsed_json(text):
+    return json.loads(text)
+
+@functools.lru_cache(maxsize=None)
+def _kind(name):
+    return (name, 1)
+
+def remember(k, v):
+    _SEEN[k] = v
+    _SEEN.setdefault(k, v)
+"""
+
+
+def _immutable_expr(e: ast.expr, params=frozenset()) -> bool:
+    """`params`: the memoised function's own parameters - hashable by construction of the cache key."""
+    if isinstance(e, ast.Constant):
+        return True
+    if isinstance(e, ast.Name) and e.id in params:
+        return True
+    if isinstance(e, ast.Tuple):
+        return all(_immutable_expr(x, params) for x in e.elts)
+    if isinstance(e, ast.Call) and isinstance(e.func, ast.Name) and e.func.id in ("str", "int", "float", "bool", "frozenset", "len", "hash"):
+        return True
+    if isinstance(e, (ast.Compare, ast.BoolOp)) or (isinstance(e, ast.UnaryOp) and isinstance(e.op, ast.Not)):
+        return True
+    if isinstance(e, ast.IfExp):
+        return _immutable_expr(e.body, params) and _immutable_expr(e.orelse, params)
+    if isinstance(e, ast.JoinedStr):
+        return True
+    return isinstance(e, ast.Name) and e.id in ("None", "True", "False")
+
+
+def _memo_scan(tree: ast.Module):
+    """-> (functions seen, [(qualname, decorator, [mutable return texts])], [(qualname, module-level name written)])"""
+    module_mutables = set()
+    for n in tree.body:
+        if isinstance(n, (ast.Assign, ast.AnnAssign)) and n.value is not None:
+            v = n.value
+            mutable = isinstance(v, (ast.Dict, ast.List, ast.Set, ast.DictComp, ast.ListComp, ast.SetComp)) or (
+                isinstance(v, ast.Call) and u(v.func).split(".")[-1] in ("dict", "list", "set", "defaultdict", "OrderedDict", "Counter", "deque", "WeakValueDictionary"))
+            if mutable:
+                for t in (n.targets if isinstance(n, ast.Assign) else [n.target]):
+                    if isinstance(t, ast.Name):
+                        module_mutables.add(t.id)
+    n_fn, memo, writes = 0, [], []
+
+    def visit(body, prefix):
+        nonlocal n_fn
+        for node in body:
+            if isinstance(node, ast.ClassDef):
+                visit(node.body, prefix + node.name + ".")
+            elif isinstance(node, (ast.FunctionDef, ast.AsyncFunctionDef)):
+                n_fn += 1
+                q = prefix + node.name
+                for d in node.decorator_list:
+                    head = d.func if isinstance(d, ast.Call) else d
+                    if u(head).split(".")[-1] in _MEMO_DECORATORS:
+                        rets = [r.value for r in ast.walk(node) if isinstance(r, ast.Return) and r.value is not None]
+                        params = frozenset(a.arg for a in node.args.args + node.args.kwonlyargs)
+                        memo.append((q, u(head), [u(r)[:80] for r in rets if not _immutable_expr(r, params)]))
+                local = {a.arg for a in node.args.args + node.args.kwonlyargs} | {t.id for x in ast.walk(node) if isinstance(x, ast.Assign) for t in x.targets if isinstance(t, ast.Name)}
+                for x in ast.walk(node):
+                    root = None
+                    if isinstance(x, (ast.Assign, ast.AugAssign)):
+                        for t in (x.targets if isinstance(x, ast.Assign) else [x.target]):
+                            if isinstance(t, (ast.Subscript, ast.Attribute)):
+                                b = t
+                                while isinstance(b, (ast.Subscript, ast.Attribute)):
+                                    b = b.value
+                                if isinstance(b, ast.Name):
+                                    root = b.id
+                    elif isinstance(x, ast.Call) and isinstance(x.func, ast.Attribute) and x.func.attr in ("append", "extend", "update", "setdefault", "add", "pop", "popitem", "clear", "insert", "remove", "discard") and isinstance(x.func.value, ast.Name):
+                        root = x.func.value.id
+                    elif isinstance(x, ast.Delete):
+                        for t in x.targets:
+                            if isinstance(t, ast.Subscript) and isinstance(t.value, ast.Name):
+                                root = t.value.id
+                    if root in module_mutables and root not in local:
+                        writes.append((q, root))
+                visit(node.body, q + ".")
+
+    visit(tree.body, "")
+    return n_fn, memo, sorted(set(writes))
+
+
+def memoisation(ctx: Ctx):
+    """Caching is per object (lazyproperty) everywhere in this package.  A PROCESS-WIDE cache (functools.lru_cache,
+    a module-level dict written by a function) hands the same object to every caller with equal arguments; since the
+    library rewrites response / transform dictionaries in place (write inventory above), whatever one cube did to the
+    object is seen by the next: results then depend on the access history.  Allowed: a memoised function all of whose
+    returns are immutable."""
+    from ..loader import AnalysisError
+
+    _n, memo, writes = _memo_scan(ast.parse(_MEMO_CONTROL))
+    if [m[0] for m in memo if m[2]] != ["_parsed_json"] or [m[0] for m in memo if not m[2]] != ["_kind"] or writes != [("remember", "_SEEN")]:
+        raise AnalysisError("memoisation rule: the positive control is no longer recognised")
+    n_fn = 0
+    bad = False
+    for mod in ctx.repo.modules.values():
+        short = mod.path.split("cr/cube/")[-1]
+        n, memo, writes = _memo_scan(mod.tree)
+        n_fn += n
+        for q, deco, mutable in memo:
+            if mutable:
+                bad = True
+                ctx.violated("no-shared-cache", f"{short}::{q} [@{deco}]", mutable, "a per-object cache (lazyproperty) or an immutable result",
+                             "every caller with an equal argument receives the SAME mutable object; the library edits such objects in place, so a result depends on what was evaluated before")
+            else:
+                ctx.held("no-shared-cache", f"{short}::{q} [@{deco}]", "all returns immutable", "")
+        for q, root in writes:
+            bad = True
+            ctx.violated("no-shared-cache", f"{short}::{q} [module-level `{root}`]", f"writes module-level container `{root}`", "no state outlives an object")
+    ctx.count("functions scanned for process-wide caches", n_fn)
+    ctx.require_min("functions scanned for process-wide caches", 900)
+    if not bad:
+        ctx.held("no-shared-cache", "package: every function", "no memoising decorator with a mutable result, no function writes a module-level container", "", "positive control: 3 of 3 recognised")
